@@ -46,7 +46,7 @@ UnsubOK(tr, f, u) ==
   /\ \A q \in 1..Len(f) : (f[q].e.o = "ans" /\ f[q].e.k = "issub" /\ f[q].e.u = u) => (f[q].e.v = IF EndedBefore(f, u, q) THEN 0 ELSE 1)
 \* unsubscribe again / after a terminal has no effect: that stimulus produces no callback and no source activity
 IdemOK(tr, f) ==
-  \A i \in 1..Len(tr) : (tr[i].st.k = "unsub" /\ \E p \in 1..Len(f) : f[p].i < i /\ (IsTermCb(f[p], tr[i].st.a) \/ IsUnsubRet(f[p], tr[i].st.a)))
+  \A i \in 1..Len(tr) : (tr[i].st.k \in {"unsub", "using", "using_panic"} /\ \E p \in 1..Len(f) : f[p].i < i /\ (IsTermCb(f[p], tr[i].st.a) \/ IsUnsubRet(f[p], tr[i].st.a)))
                          => \A j \in 1..Len(tr[i].obs) : tr[i].obs[j].o \in {"mark", "ans"}
 C05ok(tr) == LET f == Flat(tr) IN IdemOK(tr, f) /\ \A u \in Sinks : UnsubOK(tr, f, u)
 
@@ -64,6 +64,16 @@ C06ok(tr) ==
      /\ \A i \in f[ep].i..Len(tr) : tr[i].fin \in {"ok", "stuck"}                \* producers stop (no exhausted budget); `stuck` is C07's business
      /\ \A i \in f[ep].i..Len(tr) : tr[i].fin = "ok" => \A j \in 1..Len(tr[i].cnt) : tr[i].cnt[j] = 0     \* hot sources no longer hold the observer
 
+\* amb's losers: once another input has signalled, a losing input sees is_subscribed() = false at the latest from its second
+\* attempt on (the attempt that discovers it may still see true, and is not delivered).  Stated for amb over two instrumented inputs.
+AmbLosersOK(tr, root) ==
+  (root.op = "amb" /\ Len(root.in) = 2 /\ root.in[1].op = "probe" /\ root.in[2].op = "probe") =>
+    LET f == Flat(tr)
+        att == { q \in 1..Len(f) : IsAttempt(f[q]) }
+        first == IF att = {} THEN 0 ELSE CHOOSE q \in att : \A r \in att : q <= r
+        w == IF first = 0 THEN 0 ELSE f[first].e.u                                   \* the winner: the input that signals first
+        lose == { q \in att : f[q].e.u # w }
+    IN \A q \in lose : (\E r \in lose : r < q /\ f[r].e.u = f[q].e.u /\ f[r].e.w = f[q].e.w) => f[q].e.v = 0
 \* ---------------------------------------------------------------- C07 (single thread): every call returns
 C07ok(tr) == AllFinOk(tr)
 
@@ -78,7 +88,8 @@ TermWF(t) == /\ (t.op = "cold" => \A s \in 1..Len(t.scripts) : WellFormed([i \in
              /\ \A i \in 1..Len(t.in) : TermWF(t.in[i])
 Observed(f, u) == LET s == SelectSeq(f, LAMBDA x : IsCb(x, u)) IN [p \in 1..Len(s) |-> TEv(s[p].i, s[p].e.k, IF s[p].e.v >= RObsBase THEN RObsBase ELSE s[p].e.v)]
 SubStim(tr, u) == IF \E i \in 1..Len(tr) : tr[i].st.k = "sub" /\ tr[i].st.a = u THEN CHOOSE i \in 1..Len(tr) : tr[i].st.k = "sub" /\ tr[i].st.a = u ELSE 0
-UnsubStim(tr, u) == IF \E i \in 1..Len(tr) : tr[i].st.k = "unsub" /\ tr[i].st.a = u THEN CHOOSE i \in 1..Len(tr) : tr[i].st.k = "unsub" /\ tr[i].st.a = u /\ \A j \in 1..(i - 1) : ~(tr[j].st.k = "unsub" /\ tr[j].st.a = u) ELSE 0
+IsUnsubStim(s, u) == s.st.k \in {"unsub", "using", "using_panic"} /\ s.st.a = u
+UnsubStim(tr, u) == IF \E i \in 1..Len(tr) : IsUnsubStim(tr[i], u) THEN CHOOSE i \in 1..Len(tr) : IsUnsubStim(tr[i], u) /\ \A j \in 1..(i - 1) : ~IsUnsubStim(tr[j], u) ELSE 0
 \* instance number the leaves get when sink u subscribes: 1 + number of leaf subscriptions seen so far (all leaves must agree)
 LeafSubsBefore(tr, su, id) == Cardinality({ <<i, j>> \in (1..(su - 1)) \X (1..8) : j <= Len(tr[i].obs) /\ tr[i].obs[j].o = "probe" /\ tr[i].obs[j].k = "subscribed" /\ tr[i].obs[j].u = id })
 \* "ok" | "bad" | "na" (outside the domain of the definition: reactions, ill-formed input, subjects, ambiguous instance numbers, divergence)
@@ -207,7 +218,7 @@ C17ok(tr, leakSink, leakOps) == (AllFinOk(tr) /\ AllSinksEnded(tr)) => (~leakSin
 V(b) == IF b THEN "ok" ELSE "bad"      \* verdicts are strings: "ok" | "bad" | "na"
 Judge(tr, root, c, leakSink, leakOps) ==
   LET rv == RefVerdict(tr, root, HasReact(c)) IN
-  [C01 |-> V(C01ok(tr)), C05 |-> V(C05ok(tr)), C06 |-> V(HasPublish(c) \/ C06ok(tr)), C07 |-> V(C07ok(tr)),
+  [C01 |-> V(C01ok(tr)), C05 |-> V(C05ok(tr)), C06 |-> V(HasPublish(c) \/ (C06ok(tr) /\ (HasReact(c) \/ ~OneSink(tr) \/ AmbLosersOK(tr, root)))), C07 |-> V(C07ok(tr)),
    REF |-> rv, TAP |-> V(rv = "na" \/ TapOK(tr, root)), C17 |-> V(C17ok(tr, leakSink, leakOps)),
    C10 |-> C10verdict(tr, root, c), C13 |-> C13verdict(tr, root, c)]
 =============================================================================
